@@ -42,6 +42,10 @@ class C16(Prop):
             start = Fraction(rng.randint(-32, 64), 1 << rng.choice([0, 1, 3]))
             if fn != "range":
                 start = abs(start)
+            if rng.random() < 0.08:
+                # axes far from the origin relative to their step (epoch seconds, GHz): still exact in binary64
+                start = Fraction(rng.choice([1_700_000_000, 10**9, 2**40, 1_600_000_000]))
+                step = Fraction(rng.choice([1, 1, 2, 4]), rng.choice([1, 2, 4]))
             r = rng.random()
             n = rng.randint(1, 40)
             if r < 0.5:
